@@ -38,4 +38,16 @@ CHECKS = {
             {"name": "fuzz", "pkg": "./c18", "fuzz": "FuzzCodecs", "fuzztime": {"thorough": "300s"}, "tiers": ("thorough",)},
         ],
     },
+    "C06": {
+        "rule": ("per stream-oriented matcher and filter configuration (28 targets): a first message from the protocol's structure-aware generator "
+                 "(one in four byte-mutated), optionally followed by arbitrary trailing bytes; EVERY prefix length 0..len(stream) is evaluated on a fresh "
+                 "connection through MatcherSet.Match. Non-trivial = whole message matches and the prefix verdicts form >= 3 regions, or a mutated stream "
+                 "reaching 'no' after at least one 'need more'; distinct = distinct (matcher, config, stream)."),
+        "assumptions": ["datagram matchers (quic, wireguard, UDP dns/openvpn) are out of scope of the fragmentation clauses", "yes -> no when trailing bytes arrive is allowed (dns, rdp, winbox, openvpn do it on purpose)"],
+        "min_classes": {"quick": {"C06/full-match": 1500, "C06/mutated": 1000}},
+        "runs": [
+            {"name": "replay+rapid", "pkg": "./c06", "run": ".", "rapid_checks": {"quick": 400, "thorough": 40000},
+             "shards": {"quick": 1, "thorough": 16}, "timeout": {"quick": 600, "thorough": 7200}},
+        ],
+    },
 }
